@@ -283,34 +283,49 @@ func (e *Engine) registerJSON() {
 		return TupleV{E: []Value{mkJ(j, true), mkBool(true)}}
 	}
 	I["(vrt.JSON).Kind"] = func(p *Path, a []Value, site ssa.Instruction) Value {
-		j := p.resolveSym(jOf(p, a[0]))
+		j := jOf(p, a[0])
+		if j.Kind == JSym {
+			// 0 null 1 bool 2 int 3 frac 4 string 5 array 6 object -> vrt kinds
+			return IntV{T: smt.Ite(smt.Le(j.K, smt.Int(2)), j.K, smt.Sub(j.K, smt.Int(1))), Small: true}
+		}
 		return mkInt(int64(j.Kind))
 	}
 	I["(vrt.JSON).IsInt"] = func(p *Path, a []Value, site ssa.Instruction) Value {
-		j := p.resolveSym(jOf(p, a[0]))
+		j := jOf(p, a[0])
+		if j.Kind == JSym {
+			return BoolV{T: smt.Eq(j.K, smt.Int(2))}
+		}
 		return mkBool(j.Kind == JNum && j.IsInt)
 	}
 	I["(vrt.JSON).Len"] = func(p *Path, a []Value, site ssa.Instruction) Value {
-		j := jOf(p, a[0])
+		j := p.resolveSym(jOf(p, a[0]))
 		if j.Kind == JObj {
 			return mkInt(int64(len(j.Keys)))
 		}
 		return mkInt(int64(len(j.Elems)))
 	}
 	I["(vrt.JSON).Index"] = func(p *Path, a []Value, site ssa.Instruction) Value {
-		j := jOf(p, a[0])
+		j := p.resolveSym(jOf(p, a[0]))
 		i := p.constIntArg(a[1], "vrt.JSON.Index")
-		if j.Kind == JObj {
+		if j.Kind == JObj && i < len(j.Vals) {
 			return mkJ(j.Vals[i], true)
 		}
-		return mkJ(j.Elems[i], true)
+		if j.Kind == JArr && i < len(j.Elems) {
+			return mkJ(j.Elems[i], true)
+		}
+		p.goPanicAt(site, "vrt.JSON.Index out of range")
+		return nil
 	}
 	I["(vrt.JSON).Key"] = func(p *Path, a []Value, site ssa.Instruction) Value {
-		j := jOf(p, a[0])
-		return j.Keys[p.constIntArg(a[1], "vrt.JSON.Key")]
+		j := p.resolveSym(jOf(p, a[0]))
+		i := p.constIntArg(a[1], "vrt.JSON.Key")
+		if i >= len(j.Keys) {
+			p.goPanicAt(site, "vrt.JSON.Key out of range")
+		}
+		return j.Keys[i]
 	}
 	I["(vrt.JSON).Get"] = func(p *Path, a []Value, site ssa.Instruction) Value {
-		j := jOf(p, a[0])
+		j := p.resolveSym(jOf(p, a[0]))
 		k := a[1].(StrV)
 		// last duplicate wins (as encoding/json)
 		for i := len(j.Keys) - 1; i >= 0; i-- {
@@ -322,14 +337,14 @@ func (e *Engine) registerJSON() {
 	}
 	I["(vrt.JSON).Str"] = func(p *Path, a []Value, site ssa.Instruction) Value { return jOf(p, a[0]).S }
 	I["(vrt.JSON).Int"] = func(p *Path, a []Value, site ssa.Instruction) Value {
-		j := jOf(p, a[0])
+		j := p.resolveSym(jOf(p, a[0]))
 		if j.I == nil {
 			return mkInt(0)
 		}
 		return IntV{T: j.I}
 	}
 	I["(vrt.JSON).Bool"] = func(p *Path, a []Value, site ssa.Instruction) Value {
-		j := jOf(p, a[0])
+		j := p.resolveSym(jOf(p, a[0]))
 		if j.B == nil {
 			return mkBool(false)
 		}
@@ -349,6 +364,30 @@ func (e *Engine) registerJSON() {
 		}
 		return mkBool(false)
 	}
+	// IsFloat32: is the number representable in single precision? Decided only
+	// for constants and for documents built as such (JSONValue(..., -32)).
+	I["(vrt.JSON).IsFloat32"] = func(p *Path, a []Value, site ssa.Instruction) Value {
+		j := jOf(p, a[0])
+		if j.Kind == JSym {
+			return mkBool(j.F32)
+		}
+		if j.Kind != JNum {
+			return mkBool(false)
+		}
+		if j.F32 {
+			return mkBool(true)
+		}
+		if j.IsInt {
+			if c, ok := j.I.Int64(); ok {
+				return mkBool(float64(float32(c)) == float64(c))
+			}
+			return mkBool(false)
+		}
+		if j.F.Conc {
+			return mkBool(float64(float32(j.F.F)) == j.F.F)
+		}
+		return mkBool(j.F.Bits == 32)
+	}
 	I["(vrt.JSON).Equal"] = func(p *Path, a []Value, site ssa.Instruction) Value {
 		return BoolV{T: p.jvEq(jOf(p, a[0]), jOf(p, a[1]))}
 	}
@@ -367,6 +406,30 @@ func (e *Engine) registerJSON() {
 		p.inputs = append(p.inputs, &Input{Name: name + ".str", Kind: "string", Arr: s.A[0].Arr, Len: s.A[0].Len, Max: 6})
 		j := &JV{Kind: JSym, K: k, SymB: b, SymI: i, SymS: s, Name: name}
 		return p.jsonRope(j)
+	}
+	// vrt.JSONValue(name, mask, intBits): like JSONAny with the kind restricted to
+	// the bits of mask and an integer payload restricted to intBits (0: int64)
+	I["vrt.JSONValue"] = func(p *Path, a []Value, site ssa.Instruction) Value {
+		mask := p.constIntArg(a[1], "vrt.JSONValue mask")
+		bits := p.constIntArg(a[2], "vrt.JSONValue intBits")
+		r := I["vrt.JSONAny"](p, a[:1], site).(StrV)
+		j := r.A[0].Prov.J
+		var ks []*smt.Term
+		for k := 0; k <= 6; k++ {
+			if mask&(1<<uint(k)) != 0 {
+				ks = append(ks, smt.Eq(j.K, smt.Int(int64(k))))
+			}
+		}
+		p.assert(smt.Or(ks...))
+		if bits == 32 {
+			p.assert(smt.And(smt.Ge(j.SymI, smt.Int(-(1 << 31))), smt.Lt(j.SymI, smt.Int(1<<31))))
+		}
+		if bits == -32 {
+			// a number valid for `format: float`: representable in single precision
+			j.F32 = true
+			p.assert(smt.And(smt.Gt(j.SymI, smt.Int(-(1 << 24))), smt.Lt(j.SymI, smt.Int(1<<24))))
+		}
+		return r
 	}
 	I["vrt.JSONString"] = func(p *Path, a []Value, site ssa.Instruction) Value {
 		return p.jsonRope(&JV{Kind: JStr, S: a[0].(StrV)})
